@@ -10,9 +10,34 @@ from .ref import ssa as RS
 class Impl:
     """the real simulator for one (spec, safe) configuration; reused across traces"""
 
-    def __init__(self, spec, safe=False, model_cls=None, prepare=None):
+    def __init__(self, spec, safe=False, model_cls=None, prepare=None, edited=False):
         self.spec = spec
-        self.model = to_model(spec, cls=model_cls)
+        self.edited = edited
+        if edited:
+            # the same definition reached through edits: reactions added one by one, rejected create_reaction calls in between
+            # (a rate that names a species that does not exist; a delay parameter that is a species), the start state set on
+            # the Model after the interface was built (the interface shares the model's state array)
+            from .modelspec import reaction_tuple, rule_tuple
+            from bioscrape.types import Model
+            sp0 = spec['species'][0]
+            self.model = (model_cls or Model)(species=list(spec['species']), parameters=[(k, v) for k, v in spec.get('params', {}).items()],
+                                              initial_condition_dict={s: 0 for s in spec['species']})
+            bads = [([sp0], [sp0, sp0], 'hillpositive', {'k': 1.1, 'K': 2.0, 'n': 2.0, 's1': 'NoSuchSpecies'}),
+                    ([sp0], [], 'massaction', {'k': 0.9}, 'fixed', [sp0], [sp0, sp0], {'delay': sp0})]
+            for i, r in enumerate(spec['reactions']):
+                for bad in (bads if i == 0 else bads[i % 2:i % 2 + 1]):
+                    try:
+                        self.model.create_reaction(*bad)
+                    except Exception:
+                        pass
+                    else:
+                        raise RuntimeError('harness: a reaction that must be rejected was accepted')
+                self.model.create_reaction(*reaction_tuple(r))
+            for r in spec.get('rules', []):
+                self.model.create_rule(*rule_tuple(r))
+            self.model.py_initialize()
+        else:
+            self.model = to_model(spec, cls=model_cls)
         if prepare is not None:
             prepare(self.model)
         self.iface = interface(self.model, safe)
@@ -29,7 +54,11 @@ class Impl:
 
     def start(self, x0=None, t0=0.0, dt=None):
         xv = self.x0 if x0 is None else state_vector(self.model, x0)
-        self.iface.py_set_initial_state(np.array(xv, dtype=float))
+        if self.edited:
+            order = self.model.get_species_list()
+            self.model.set_species({s: float(xv[i]) for i, s in enumerate(order)})      # through the Model, after the interface exists
+        else:
+            self.iface.py_set_initial_state(np.array(xv, dtype=float))
         self.iface.py_set_initial_time(float(t0))
         if dt is not None:
             self.iface.py_set_dt(float(dt))
